@@ -513,6 +513,11 @@ func readerReuse(c *dctx, docs []docFile, dir string) {
 			}
 			lay := pdfw.RandomLayout(r, 1)
 			lay.Forms, lay.FontNameRot, lay.FontsDirect, lay.ResIndirect = true, true, i%4 == 3, false
+			if i%2 == 0 {
+				// forms and page contents stored as they are: what the reader hands to the
+				// parser is then the stream's own data, read again by the next call
+				lay.Filter = "none"
+			}
 			b := pdfw.Build(r.Int63(), lay, []*pdfw.Doc{g.Doc})
 			has := map[string]bool{}
 			for _, f := range b.Features {
